@@ -17,6 +17,10 @@ Definition ACN_TWO_BYTES : N := 2.
 Definition ACN_THREE_BYTES : N := 3.
 Definition ACN_LFLAG_MASK : N := 128.
 Definition ACN_LENGTH_MASK : N := 15.
+Definition RPC_VERSION_MASK : N := 4026531840.
+Definition RPC_SIZE_MASK : N := 268435455.
+Definition RPC_PROTOCOL_VERSION : N := 1.
+Definition RPC_MAX_BUFFER_SIZE : N := 1048576.
 From Coq Require Import List.
 Definition ACN_HEADER : list N := (cons 65 (cons 83 (cons 67 (cons 45 (cons 69 (cons 49 (cons 46 (cons 49 (cons 55 (cons 0 (cons 0 (cons 0 nil)))))))))))).
 Definition ACN_HEADER_SIZE : N := 12.
